@@ -30,6 +30,10 @@ async def work():
     await asyncio.sleep(3600)
 
 
+# a function name of 150 kB: the reply to 'func-name' is longer than anything a single read or a size constant covers
+work.__name__ = "w" * 150000
+
+
 def _call(f, *a):
     """the reply rule of C17 (Control!Expected): 'ok' for None, else str() of the result or of the exception raised"""
     try:
@@ -50,7 +54,9 @@ QUERIES = [
     ("get-group-ids " + LONG, lambda p: _call(p.get_group_ids, LONG)),
     ("is-locked", lambda p: str(p.is_locked)),
     ("get-group-ids start-group-0 [1,'a'] {'k':\"v\"}", lambda p: _call(p.get_group_ids, "start-group-0", "[1,'a']", "{'k':\"v\"}")),
+    ("func-name", lambda p: str(p.func_name)),        # 150 kB; raw clients only (the bundled client reads a reply with ONE read of 100 KiB)
 ]
+RAW_ONLY = {7}
 
 
 def pobs(pool):
@@ -160,7 +166,7 @@ async def run_script(job):
                     try:
                         cl.r, cl.w = await open_conn()
                         if c.get("nohandshake"):
-                            ev("connected", s=c["s"], cli=False, ok=True, text="(no handshake sent)")
+                            ev("connected", s=c["s"], cli=False, ok=True, text="(no handshake sent)", hs=False)
                             continue
                         cl.w.write(json.dumps({"terminal_width": 80}).encode() + b"\n")
                         await cl.w.drain()
@@ -198,6 +204,8 @@ async def run_script(job):
                 nq[0] += 1
                 if c["cls"] == "query":
                     v = c.get("v", (nq[0] + c["s"]) % len(QUERIES))
+                    if v in RAW_ONLY and cl is not None and cl.cli is not None:
+                        v = 0
                     line, expf = QUERIES[v]
                     exp = expf(pool)
                 elif c["cls"] == "mutate":
